@@ -6,6 +6,7 @@ import (
 	"fmt"
 	"go/ast"
 	"go/token"
+	"go/types"
 	"sort"
 	"strings"
 
@@ -231,11 +232,57 @@ func (fr *frame) invEnv(l *loopInfo, st *State, env map[ssa.Value]Val) *TEnv {
 			te.bind(phi.Comment, v, phi.Type())
 		}
 	}
+	if _, has := te.vars["idx"]; !has {
+		// a counting loop (for i := 0; ...; i++): idx names its counter as well, so that a loop contract
+		// survives the rewriting of a range loop into an index loop and back (idx = elements already done)
+		var cand []string
+		for _, ins := range l.header.Instrs {
+			phi, ok := ins.(*ssa.Phi)
+			if !ok {
+				break
+			}
+			if isCounterPhi(phi) {
+				cand = append(cand, env[phi].t)
+			}
+		}
+		if len(cand) == 1 && cand[0] != "" {
+			te.vars["idx"] = TV{t: cand[0], sort: sortInt}
+		}
+	}
 	if fr.contract != nil {
 		// letold names denote values of the function's entry state
 		te.withState(fr.entry).bindLets(fr.contract, true)
 	}
 	return te
+}
+
+// isCounterPhi: an integer loop variable that starts at 0 and is only ever incremented by 1.
+func isCounterPhi(phi *ssa.Phi) bool {
+	if b, ok := phi.Type().Underlying().(*types.Basic); !ok || b.Info()&types.IsInteger == 0 {
+		return false
+	}
+	sawZero, sawInc := false, false
+	for _, e := range phi.Edges {
+		switch x := e.(type) {
+		case *ssa.Const:
+			if x.Value == nil || x.Value.ExactString() != "0" {
+				return false
+			}
+			sawZero = true
+		case *ssa.BinOp:
+			if x.Op != token.ADD || x.X != ssa.Value(phi) {
+				return false
+			}
+			c, ok := x.Y.(*ssa.Const)
+			if !ok || c.Value == nil || c.Value.ExactString() != "1" {
+				return false
+			}
+			sawInc = true
+		default:
+			return false
+		}
+	}
+	return sawZero && sawInc
 }
 
 func isRangeIndexPhi(phi *ssa.Phi) bool {
@@ -336,6 +383,55 @@ func (fr *frame) cutLoopHeader(l *loopInfo, cur *State, env map[ssa.Value]Val, r
 		}
 		hv := vc.havocVal(phi.Type(), "loop_"+phi.Comment, "")
 		env[phi] = hv
+		if isCounterPhi(phi) {
+			// structural facts of a counting loop `for i := 0; i < X; i++` with X fixed during the loop: the
+			// counter is only incremented after the test i < X succeeded, so 0 <= i and (i == 0 or i <= X)
+			vc.assume("true", "(>= "+hv.t+" 0)")
+			for _, hi := range l.header.Instrs {
+				cmp, ok := hi.(*ssa.BinOp)
+				if !ok || cmp.Op != token.LSS || cmp.X != ssa.Value(phi) {
+					continue
+				}
+				usedAsExit := false
+				if ifi, ok := l.header.Instrs[len(l.header.Instrs)-1].(*ssa.If); ok && ifi.Cond == ssa.Value(cmp) && len(l.header.Succs) == 2 && l.blocks[l.header.Succs[0]] && !l.blocks[l.header.Succs[1]] {
+					usedAsExit = true
+				}
+				if !usedAsExit {
+					continue
+				}
+				bound := ""
+				outside := func(v ssa.Value) bool {
+					switch d := v.(type) {
+					case *ssa.Parameter, *ssa.Const, *ssa.FreeVar:
+						return true
+					case ssa.Instruction:
+						return d.Block() != nil && !l.blocks[d.Block()]
+					}
+					return false
+				}
+				if outside(cmp.Y) {
+					if c, isC := cmp.Y.(*ssa.Const); isC {
+						bound = vc.constVal(c).t
+					} else if lv, ok := env[cmp.Y]; ok && lv.t != "" {
+						bound = lv.t
+					}
+				} else if call, isCall := cmp.Y.(*ssa.Call); isCall {
+					if b, isB := call.Call.Value.(*ssa.Builtin); isB && b.Name() == "len" && len(call.Call.Args) == 1 && outside(call.Call.Args[0]) {
+						if av, ok := env[call.Call.Args[0]]; ok && av.t != "" {
+							switch types.Unalias(call.Call.Args[0].Type()).Underlying().(type) {
+							case *types.Slice:
+								bound = "(slen " + av.t + ")"
+							case *types.Basic:
+								bound = "(str.len " + av.t + ")"
+							}
+						}
+					}
+				}
+				if bound != "" {
+					vc.assume("true", "(or (= "+hv.t+" 0) (<= "+hv.t+" "+bound+"))")
+				}
+			}
+		}
 		if isRangeIndexPhi(phi) {
 			// the element index of this iteration, in the form the body's index instruction will have it:
 			// quantified invariants assumed below are instantiated at it (see noteIndexTerm)
